@@ -66,6 +66,21 @@ func (g *gen) text() string {
 	return g.pick([]string{"", "Main St", "a, b", "say \"hi\"", "line\nbreak", " padded ", "Ünïcode", "x", "100", "semi;colon", "tab\tbed"})
 }
 func (g *gen) gtfsTime() string {
+	t := g.gtfsTimeBare()
+	if g.coin(0.06) { // padding, as spreadsheet exports leave it: white space (ASCII or not) around the value is not part of it
+		pad := g.pick([]string{" ", "\t", "\u00a0", "\u0085", "\u2003", "\u3000", "\u1680", "\u202f", "\u2009", "\u205f", "\u2028"})
+		switch g.r.Intn(3) {
+		case 0:
+			return pad + t
+		case 1:
+			return t + pad
+		default:
+			return pad + t + pad
+		}
+	}
+	return t
+}
+func (g *gen) gtfsTimeBare() string {
 	h, m, s := g.r.Intn(30), g.r.Intn(60), g.r.Intn(60)
 	if g.coin(0.1) {
 		h = 24 + g.r.Intn(76)
@@ -90,7 +105,22 @@ func (g *gen) decimal() string {
 		return fmt.Sprintf("%d.%04d", g.r.Intn(90), g.r.Intn(10000))
 	}
 }
+
+// intSpell: a non-negative integer in one of the decimal spellings the GTFS integer columns admit (plain, zero-padded,
+// explicit plus sign): the value is what counts, "010" is ten and sorts after "9"
+func (g *gen) intSpell(q int) string {
+	switch {
+	case g.coin(0.12):
+		return fmt.Sprintf("%0*d", 2+g.r.Intn(5), q)
+	case g.coin(0.04):
+		return fmt.Sprintf("+%d", q)
+	}
+	return fmt.Sprint(q)
+}
 func (g *gen) date() string {
+	if g.coin(0.05) { // leap days (also of century years divisible by 400) and the ends of the calendar
+		return g.pick([]string{"20240229", "20000229", "24000229", "00010101", "00010102", "99991231", "20231231", "20230101"})
+	}
 	return fmt.Sprintf("%04d%02d%02d", 2022+g.r.Intn(3), 1+g.r.Intn(12), 1+g.r.Intn(28))
 }
 
@@ -109,6 +139,10 @@ func (g *gen) wellFormed(size int) *sfeed {
 		}
 		if n > 1 && g.coin(0.3) {
 			out[n-1] = prefix + " with space"
+		}
+		if n > 1 && g.coin(0.12) {
+			// ids are byte strings: two ids that differ only in bytes that are not valid UTF-8 (a Latin-1 export) are different ids
+			out[0], out[1] = prefix+"-St\xe9", prefix+"-St\xe8"
 		}
 		return out
 	}
@@ -211,7 +245,7 @@ func (g *gen) wellFormed(size int) *sfeed {
 				}
 			}
 			for _, q := range seqs {
-				sh.rows = append(sh.rows, srow{"shape_id": id, "shape_pt_lat": g.decimal(), "shape_pt_lon": g.decimal(), "shape_pt_sequence": fmt.Sprint(q), "shape_dist_traveled": g.pick([]string{"", "0", "12.5"})})
+				sh.rows = append(sh.rows, srow{"shape_id": id, "shape_pt_lat": g.decimal(), "shape_pt_lon": g.decimal(), "shape_pt_sequence": g.intSpell(q), "shape_dist_traveled": g.pick([]string{"", "0", "12.5"})})
 			}
 		}
 		g.r.Shuffle(len(sh.rows), func(i, j int) { sh.rows[i], sh.rows[j] = sh.rows[j], sh.rows[i] })
@@ -238,15 +272,16 @@ func (g *gen) wellFormed(size int) *sfeed {
 		n := g.r.Intn(2 + size/2)
 		seqs := g.r.Perm(n*2 + 3)[:n]
 		if g.coin(0.15) { // stop_sequence is an unbounded non-negative integer: values around and beyond the int32 limit
+			off := []int{2147483640, 4294967290, 2147483648, 1 << 40}[g.r.Intn(4)] // ONE offset per trip: the numbers stay pairwise distinct
 			for k := range seqs {
 				if g.coin(0.5) {
-					seqs[k] += []int{2147483640, 4294967290, 2147483648, 1 << 40}[g.r.Intn(4)]
+					seqs[k] += off
 				}
 			}
 		}
 		sort.Ints(seqs)
 		for _, q := range seqs {
-			stt.rows = append(stt.rows, srow{"trip_id": tripIDs[i], "arrival_time": g.gtfsTime(), "departure_time": g.gtfsTime(), "stop_id": stopIDs[g.r.Intn(nStops)], "stop_sequence": fmt.Sprint(q),
+			stt.rows = append(stt.rows, srow{"trip_id": tripIDs[i], "arrival_time": g.gtfsTime(), "departure_time": g.gtfsTime(), "stop_id": stopIDs[g.r.Intn(nStops)], "stop_sequence": g.intSpell(q),
 				"stop_headsign": g.text(), "pickup_type": g.pick([]string{"0", "1", "2", "3"}), "drop_off_type": g.pick([]string{"0", "1", "2", "3"}),
 				"continuous_pickup": g.pick([]string{"0", "1", "2", "3"}), "continuous_drop_off": g.pick([]string{"0", "1", "2", "3"}),
 				"shape_dist_traveled": g.pick([]string{"", "3.25"}), "timepoint": g.pick([]string{"0", "1"})})
@@ -290,7 +325,8 @@ func (g *gen) presentation(f *sfeed) *presentation {
 	for k := g.r.Intn(3); k > 0; k-- {
 		// unknown extra files, including ones that merely share a base name with a supported table
 		p.members = append(p.members, g.pick([]string{"feed_info.txt", "fare_rules.txt", "README", "attributions.txt",
-			"archive/2023/stops.txt", "drafts/transfers.txt", "old/stop_times.txt", "backup/agency.txt", "x/calendar_dates.txt", "Stops.txt", "stops.txt.bak"}))
+			"archive/2023/stops.txt", "drafts/transfers.txt", "old/stop_times.txt", "backup/agency.txt", "x/calendar_dates.txt", "Stops.txt", "stops.txt.bak",
+			"archive/shapes.txt", "gtfs/frequencies.txt", "feed/calendar.txt", "a/b/c/transfers.txt", "old/shapes.txt"}))
 	}
 	g.r.Shuffle(len(p.members), func(i, j int) { p.members[i], p.members[j] = p.members[j], p.members[i] })
 	return p
@@ -356,7 +392,15 @@ func renderFeed(g *gen, p *presentation, f *sfeed) []member {
 		if t := f.table(name); t != nil {
 			ms = append(ms, member{name, renderTable(g, p, t)})
 		} else {
-			ms = append(ms, member{name, "whatever,content\n1,2\n"})
+			content := "whatever,content\n1,2\n"
+			if base := name[strings.LastIndex(name, "/")+1:]; g != nil && base != name && staticCols[base] != nil && g.coin(0.7) {
+				// an extra member in a sub-folder that is, by its content, a perfectly good table of the same base name
+				// (ids S0.., T0.. coincide with the feed's own): it is still an unknown extra file and contributes nothing
+				if t := g.wellFormed(4).table(base); t != nil {
+					content = renderTable(nil, canonicalPresentation(&sfeed{tables: []*stable{t}}), t)
+				}
+			}
+			ms = append(ms, member{name, content})
 		}
 	}
 	return ms
